@@ -26,11 +26,10 @@ def candidates(props):
         b = F.body(fn)
         if b is None or "{closure" in fn or not b.raw.get("locals") or str(b.raw["locals"][0]) != "()":
             continue
-        sp = b.raw["sp"]                      # file:line-line
-        m = re.match(r"(.+?):(\d+)", sp)
-        if not m or not m.group(1).startswith("tracing") or "/src/" not in m.group(1):
+        sp = b.raw["sp"]                      # {"f": file, "l": line, "c": col}
+        if b.raw.get("expanded") or not sp.get("f", "").startswith("tracing") or "/src/" not in sp["f"]:
             continue
-        out.append(dict(fn=fn, file=m.group(1), line=int(m.group(2)), props=sorted(ps)))
+        out.append(dict(fn=fn, file=sp["f"], line=int(sp["l"]), props=sorted(ps)))
     return out
 
 
